@@ -13,6 +13,7 @@ import (
 	"encoding/json"
 	"fmt"
 	"math/rand/v2"
+	"reflect"
 	"sort"
 	"strings"
 	"sync"
@@ -139,6 +140,7 @@ type c19Run struct {
 	st      *setec.Store
 	cache   *c10Cache
 	handles map[string]setec.Secret
+	pinned  map[string]bool // names whose handle record the store handed out inside Fields.Apply
 	obs     []c19Obs
 	fail    string
 	nextVal int
@@ -168,6 +170,15 @@ func (r *c19Run) simple(op c19Op) {
 		r.obs = append(r.obs, o)
 	case "read":
 		o := c19Obs{Kind: "read", Name: op.Name, At: r.now()}
+		if _, ok := r.handles[op.Name]; !ok && r.pinned[op.Name] {
+			// the store handed the handle record out inside Fields.Apply; Secret(name) returns that same handle
+			func() {
+				defer func() { recover() }()
+				if s := r.st.Secret(op.Name); s != nil {
+					r.handles[op.Name] = s
+				}
+			}()
+		}
 		if h, ok := r.handles[op.Name]; ok {
 			o.Done = true
 			func() {
@@ -179,6 +190,39 @@ func (r *c19Run) simple(op c19Op) {
 				o.Val = c10Tok(h.Get())
 			}()
 		}
+		r.obs = append(r.obs, o)
+	case "apply":
+		// ParseFields + Fields.Apply on the live store: a struct with ONE non-Secret ([]byte) field tagged with the
+		// name.  For the store this is LookupSecret(name) - the handle record is handed out, an unknown name is
+		// fetched first - and a read of the value now.  It must never take a handle away: the handle the harness
+		// may already hold on this name keeps protecting the secret and keeps working.
+		o := c19Obs{Kind: "apply", Name: op.Name, At: r.now(), Ans: op.Ans}
+		r.cli.mu.Lock()
+		r.cli.get = map[string]c19Ans{op.Name: op.Ans}
+		r.cli.getLog = nil
+		r.cli.mu.Unlock()
+		styp := reflect.StructOf([]reflect.StructField{{Name: "F", Type: reflect.TypeOf([]byte(nil)), Tag: reflect.StructTag(fmt.Sprintf(`setec:%q`, op.Name))}})
+		sv := reflect.New(styp)
+		ctx, cancel := context.WithTimeout(context.Background(), time.Minute)
+		func() {
+			defer func() {
+				if x := recover(); x != nil {
+					r.fail = fmt.Sprintf("Fields.Apply(%q) panics: %v", op.Name, x)
+				}
+			}()
+			if fs, err := setec.ParseFields(sv.Interface(), ""); err != nil {
+				r.fail = "ParseFields: " + err.Error()
+			} else if err := fs.Apply(ctx, r.st); err == nil {
+				o.OK = true
+				o.Val = c10Tok(sv.Elem().Field(0).Bytes())
+				r.pinned[op.Name] = true
+			}
+		}()
+		cancel()
+		r.cli.mu.Lock()
+		o.Called = len(r.cli.getLog) > 0
+		r.cli.mu.Unlock()
+		o.Docs = r.takeDocs()
 		r.obs = append(r.obs, o)
 	case "lookup", "updater":
 		o := c19Obs{Kind: op.Kind, Name: op.Name, At: r.now(), Ans: op.Ans}
@@ -271,6 +315,7 @@ func (r *c19Run) restart(op c19Op, first bool) {
 	}
 	r.cache = &c10Cache{data: data}
 	r.handles = map[string]setec.Secret{}
+	r.pinned = map[string]bool{}
 	r.cli.mu.Lock()
 	r.cli.get = map[string]c19Ans{}
 	for _, n := range op.Names {
@@ -303,7 +348,7 @@ func (r *c19Run) restart(op c19Op, first bool) {
 }
 
 func c19Scenario(t *testing.T, in c19Input) (obs []c19Obs, fail string) {
-	r := &c19Run{epoch: time.Now(), cli: &c19Client{}, handles: map[string]setec.Secret{}}
+	r := &c19Run{epoch: time.Now(), cli: &c19Client{}, handles: map[string]setec.Secret{}, pinned: map[string]bool{}}
 	r.cache = &c10Cache{}
 	if len(in.CacheDoc) > 0 {
 		r.cache.data = c10CacheJSON(in.CacheDoc)
@@ -389,6 +434,8 @@ func c19Coq(in c19Input, obs []c19Obs) string {
 			parts = append(parts, fmt.Sprintf("ORead %s %d %s %d", nm, o.At, coqBool(o.Done), o.Val))
 		case "lookup":
 			parts = append(parts, fmt.Sprintf("OLookup %s %d %s %s %s %s", nm, o.At, c19CoqAns(o.Ans), coqBool(o.OK), coqBool(o.Called), c19CoqDocs(o.Docs)))
+		case "apply":
+			parts = append(parts, fmt.Sprintf("OApply %s %d %s %s %s %d %s", nm, o.At, c19CoqAns(o.Ans), coqBool(o.OK), coqBool(o.Called), o.Val, c19CoqDocs(o.Docs)))
 		case "updater":
 			parts = append(parts, fmt.Sprintf("OUpdater %s %d %s %s %s %d %s", nm, o.At, c19CoqAns(o.Ans), coqBool(o.OK), coqBool(o.Called), o.Val, c19CoqDocs(o.Docs)))
 		case "pollbegin":
@@ -424,6 +471,9 @@ var c19Pool = []string{"d1", "d2", "u1", "u2", "u3", "x"}
 
 func c19GenSimple(r *rand.Rand, allowTick bool) c19Op {
 	n := c19Pool[r.IntN(len(c19Pool))]
+	if r.IntN(8) == 0 {
+		return c19Op{Kind: "apply", Name: n, Ans: c19Ans{Ver: 1 + uint32(r.IntN(6)), Val: 1 + r.IntN(c10MaxTok)}}
+	}
 	switch k := r.IntN(10); {
 	case k < 3:
 		return c19Op{Kind: "secret", Name: n}
@@ -521,6 +571,7 @@ func c19Tags(in c19Input, obs []c19Obs) ([]string, bool) {
 		}
 	}
 	var prev map[string]bool
+	held := map[string]bool{}
 	for _, o := range obs {
 		for _, d := range o.Docs {
 			cur := map[string]bool{}
@@ -533,6 +584,18 @@ func c19Tags(in c19Input, obs []c19Obs) ([]string, bool) {
 				}
 			}
 			prev = cur
+		}
+		if o.Kind == "secret" && o.Got || (o.Kind == "lookup" || o.Kind == "updater") && o.OK {
+			held[o.Name] = true
+		}
+		if o.Kind == "restart" {
+			held = map[string]bool{}
+		}
+		if o.Kind == "apply" && o.OK {
+			t["apply"] = true
+			if held[o.Name] {
+				t["apply-on-a-held-name"] = true
+			}
 		}
 		if o.Kind == "pollbegin" && o.Gated {
 			t["gated-poll"] = true
